@@ -3,6 +3,8 @@ from . import gen, tlc
 from .checks_layout import CUSTOM, _corpus_trees, _random_trees, _q
 from .framework import pmake
 
+# a defined role followed by three more characters is not "the role or a single inversion of it"
+JUNK = ['abc', '-fo', 'xof', '-on', '123', '_of']
 BASES = {
     'default': [':ARG0', ':mod', ':foo', ':x-y', 'ARG1', '', ':', ':op1', ':consist-of', ':TOP', ':instance', 'instance'],
     'noop': [':ARG0', ':foo', 'r', '', ':op1'],
@@ -49,6 +51,11 @@ def check_C13(c):
             for k in range(5):
                 jobs.append(('tr_roles', dict(role=b + '-of' * k, model=model)))
                 jobs.append(('tr_roles', _ends(c, dict(role=b + '-of' * k, model=model))))
+    for model, roles in (('amr', [':ARG0', ':mod', ':op1', ':consist-of', ':polarity']), ('miniamr', [':ARG1', ':mod', ':op2']), ('default', [':TOP', ':instance'])):
+        for r in roles:
+            for j in JUNK:
+                for k in (0, 1):
+                    jobs.append(('tr_roles', dict(role=r + j + '-of' * k, model=model)))
     for mdl in CUSTOM + CHAINS:
         bases = set(mdl['lits']) | {p[0] + '1' for p in mdl['pats']} | {p[0] + '12' for p in mdl['pats']} | {k_ for k_, _ in mdl['norm']} \
             | {v for _, v in mdl['norm']} | {':free', 'a', ''}
